@@ -460,6 +460,9 @@ class Dispatcher(BaseDispatcher, Generic[ContextType]):
                             if not isinstance(resp, UnsetType)
                         ),
                     )
+                    if len(response) == 0:
+                        # a batch consisting of notifications only is not answered
+                        response = UNSET
             else:
                 response = self._request_handler(request, context)
 
@@ -604,6 +607,9 @@ class AsyncDispatcher(BaseDispatcher, Generic[ContextType]):
                             if resp
                         ),
                     )
+                    if len(response) == 0:
+                        # a batch consisting of notifications only is not answered
+                        response = UNSET
             else:
                 response = await self._request_handler(request, context)
 
